@@ -65,7 +65,8 @@ def _gel(r) -> Any:
         if up in pairs:
             dup[0] = True
         pairs.add(up)
-        w = r.weighted([(round(r.uniform(-1, 1), 7), 8), (float("nan"), 1), (float("inf"), 1), (float("-inf"), 1), (2.5, 1), (-7.0, 1), (0.1234567891, 2), (1e-9, 1)])
+        w = r.weighted([(round(r.uniform(-1, 1), 7), 8), (float("nan"), 1), (float("inf"), 1), (float("-inf"), 1), (2.5, 1), (-7.0, 1), (0.1234567891, 2), (1e-9, 1),
+                        (None, 1), ("heavy", 1), (10**400, 1)])
         rec = {"src": a, "dst": b, "rel": r.choice(["coact", "concept"]), "weight": w, "updated_at": r.choice([None, "2023-01-01T00:00:00Z"]),
                "attrs": r.choice([{}, {"coact": 2, "last_seen_turn": 1}])}
         if r.chance(0.2):
@@ -92,7 +93,7 @@ def _gel(r) -> Any:
 def generate(seed: int, tier: str) -> Dict[str, Any]:
     rng = Rng(seed)
     r = rng.stream("gen")
-    lo, hi = r.choice([(-1.0, 1.0), (-0.5, 0.5), (0.0, 1.0), (-1.0, 0.25)])
+    lo, hi = r.choice([(-1.0, 1.0), (-0.5, 0.5), (0.0, 1.0), (-1.0, 0.25), (0.2, 1.0), (-1.0, -0.25), (0.0001, 0.0002)])
     ops = []
     ver = 0
     for _ in range(r.randint(2, 8)):
@@ -124,12 +125,14 @@ def _expected_edges(gel: Any, lo: float, hi: float) -> Dict[str, Dict[str, Any]]
     out = {}
     for rec in recs:
         a, b = str(rec["src"]), str(rec["dst"])
-        w = float(rec["weight"])
+        try:
+            w = float(rec["weight"])
+        except (TypeError, ValueError, OverflowError):
+            continue   # a record whose weight is no number at all (None, text, an integer beyond float range): no claim about THIS edge
         if math.isnan(w):
-            w2 = 0.0
-        else:
-            w2 = min(hi, max(lo, w))
-            w2 = round(w2, 6) if math.isfinite(w2) else 0.0
+            w = 0.0    # "not a number" has no place on the scale; the documented stand-in is 0, clamped like any other value
+        w2 = min(hi, max(lo, w))
+        w2 = round(w2, 6) if math.isfinite(w2) else 0.0
         out["%s→%s" % ((a, b) if a <= b else (b, a))] = {"src": a, "dst": b, "rel": str(rec.get("rel", "coact")), "weight": w2}
     return out
 
